@@ -346,6 +346,27 @@ class World:
     def ev_ClearBlackout(self, s):
         zkutils.ensure_deleted(self.admin, z.path.blackedout_server(s))
 
+    def ev_SetCapacity(self, s, idx):
+        """An administrator rewrites the server's capacity (masterapi.update_server_capacity:
+        a `servers` event), whether the node is up or not."""
+        sp = self.scn['sprofiles'][idx - 1]
+        if not self.admin.exists(z.path.server(s)):
+            return
+        sp_spell, doc = spell(sp['cap'], self.rng)
+        masterapi.update_server_capacity(self.admin, s, memory=doc['memory'], cpu=doc['cpu'],
+                                         disk=doc['disk'])
+        # (no presence change: the master reloads the record because of the event; the
+        # traits of the record are untouched)
+        old = self.spells.get(s) or []
+        traits = old[-1][3] if old and len(old[-1]) >= 4 else []
+        entry = sp_spell + [traits]
+        if self._lagging() or self.master is None:
+            self.spells[s] = [e for e in old if e != entry] + [entry]
+            if self._lagging():
+                self.untracked.add(s)
+        else:
+            self.spells[s] = [entry]
+
     def ev_SetParent(self, s, bucket):
         """An administrator re-parents a server (a `servers` event); the bucket may be
         one that was never defined."""
